@@ -427,9 +427,22 @@ func (w *verifRecorder) Write(b []byte) (int, error) {
 
 var verifSchemas []*arrow.Schema
 
+// verifSameSchema: what an IPC schema message carries — fields (order, names, types,
+// nullability, field metadata) and schema-level metadata. Two schema objects with the
+// same content serialise to the same bytes.
+func verifSameSchema(a, b *arrow.Schema) bool {
+	if a == b {
+		return true
+	}
+	if a == nil || b == nil {
+		return false
+	}
+	return a.Equal(b) && a.Metadata().Equal(b.Metadata())
+}
+
 func verifSerializeSchema(s *arrow.Schema) []byte {
 	for i, x := range verifSchemas {
-		if x == s {
+		if verifSameSchema(x, s) {
 			return []byte{'S', byte('a' + i)}
 		}
 	}
